@@ -112,6 +112,15 @@ func c15Gen(tier string, seed int64) []core.Case {
 			cs = append(cs, core.Case{ID: id, Class: id, Kind: "deal", Cost: 3,
 				P: core.P{"curve": curve, "t": c.t, "n": c.n, "pat": c.pat, "sec": "seeded", "sample": c.n > 12}})
 		}
+		// both curves in one process with the same ids (a service that holds a secp256k1 and an edwards25519 key and gives its
+		// parties one id): whatever the library remembers between calls must not carry over from one group order to the other
+		for _, c := range []struct {
+			pat  string
+			t, n int
+		}{{"large", 2, 4}, {"seeded", 3, 5}, {"u64", 4, 5}, {"small", 2, 3}} {
+			id := fmt.Sprintf("twocurves/%s-first/t%d-n%d/%s", curve, c.t, c.n, c.pat)
+			cs = append(cs, core.Case{ID: id, Class: id, Kind: "twocurves", Cost: 4, P: core.P{"curve": curve, "t": c.t, "n": c.n, "pat": c.pat, "sec": "seeded"}})
+		}
 		cs = append(cs, core.Case{ID: "refuse/" + curve, Class: "refuse/" + curve, Kind: "refuse", Cost: 1, P: core.P{"curve": curve}})
 		cs = append(cs, core.Case{ID: "zero-secret/" + curve, Class: "zero-secret/" + curve, Kind: "zero", Cost: 1, P: core.P{"curve": curve}})
 	}
@@ -124,6 +133,33 @@ func c15Run(c core.Case, env *core.Env) core.Result {
 	ec := ecOf(curve)
 	q := ec.Params().N
 	switch c.Kind {
+	case "twocurves":
+		other := "ed25519"
+		if isEd(curve) {
+			other = "secp256k1"
+		}
+		for pass, cv := range []string{curve, other, curve, other} {
+			sub := c
+			sub.Kind = "deal"
+			sub.P = core.P{}
+			for k, v := range c.P {
+				sub.P[k] = v
+			}
+			sub.P["curve"] = cv
+			sub.P["idlabel"] = c.ID // the same ids on both curves
+			rr := c15Run(sub, env)
+			for k, v := range rr.Obs {
+				r.Count(k, v)
+			}
+			if rr.Verdict == core.Violated {
+				r.Fail("twocurves:"+rr.Sig, "pass %d (%s after the other curve was used with the same ids in this process): %s", pass+1, cv, rr.Msg)
+			} else if rr.Verdict == core.Inconclusive {
+				r.Inconcl("%s", rr.Msg)
+			}
+			r.NonTrivial = r.NonTrivial || rr.NonTrivial
+		}
+		r.Count("two_curve_sequences", 1)
+		return r
 	case "refuse":
 		c15Refuse(&r, curve, ec, q, env.Seed)
 		return r
@@ -145,7 +181,11 @@ func c15Run(c core.Case, env *core.Env) core.Result {
 		return r
 	}
 	t, n := c.P.Int("t"), c.P.Int("n")
-	ids := c15Ids(c.P.Str("pat"), n, q, nil, env.Seed, c.ID)
+	idLabel := c.ID
+	if c.P.Has("idlabel") {
+		idLabel = c.P.Str("idlabel")
+	}
+	ids := c15Ids(c.P.Str("pat"), n, q, nil, env.Seed, idLabel)
 	rg := rng(env.Seed, c.ID+"/secret")
 	var secret *big.Int
 	switch c.P.Str("sec") {
